@@ -250,6 +250,21 @@ Theorem C05_put_reader_reuse : forall (H : bytes -> bytes),
 Proof. exact put_src_reuse. Qed.
 Print Assumptions C05_put_reader_reuse.
 
+(* ---- histories that contain such Puts: inner lookups and source positions leave no trace in the
+   files -- the history ends in the state of the same history with plain Puts of the whole data, so
+   C05_history_sound and C05_put_get_persists cover them; in particular the lookups are sound after
+   every prefix *)
+Theorem C05_history_with_inner_lookups_erases : forall (H : bytes -> bytes) ops fs,
+  Forall xhop_ok ops -> xhistory_run H ops fs = history_run H (map xerase ops) fs.
+Proof. exact xhistory_erase. Qed.
+Print Assumptions C05_history_with_inner_lookups_erases.
+
+Theorem C05_history_with_inner_lookups_sound : forall (H : bytes -> bytes) ops fs n id,
+  Forall xhop_ok ops ->
+  let s := xhistory_run H (firstn n ops) fs in bytes_ok H s id /\ file_ok s id.
+Proof. exact xhistory_sound. Qed.
+Print Assumptions C05_history_with_inner_lookups_sound.
+
 (* ---- on the source as translated: Gen/CacheSrc.v is made from cache/cache.go by harness/go2coq on
    every run; Cache/SrcFacts.v proves its segments equal to the codec above *)
 From GI Require Import Lib.GoSem Lib.GoSemSeg Cache.SrcLib Gen.CacheSrc Cache.SrcFacts.
